@@ -484,6 +484,10 @@ func rangeScan[K nodeKey, V any, L nodeLeaf[V]](
 	}
 
 	return func(yield func(K, V) bool) {
+		if root.pointer == nil {
+			return
+		}
+
 		var q []nodeRef
 		var depths []int // key bytes consumed on the path to each stacked node
 
